@@ -99,3 +99,36 @@ Theorem C03_drop_collection_frame :
 Proof. exact drop_collection_frame. Qed.
 Print Assumptions C03_drop_collection_frame.
 
+
+(* ---- adequacy of the abstract specification S (Proofs/SpecAdequacyProofs.v): consequences of a_step alone, no store, model or refinement lemma ---- *)
+From Coq Require Import Permutation Sorted.
+From Clover Require Import HistoryProofs CompositeSpec CompositeProofs IndexIndepProofs AbstractSpecProofs SpecAdequacyProofs.
+Theorem C03_spec_bulk_update_exact : forall a q u t a' nq sc,
+  a_closed a = false -> wf_db (a_db a) -> a_step (OUpdateFunc q u) a t a' ->
+  normalize_query (mk_query q) = Some nq -> nq_skip nq = 0 -> nq_limit nq < 0 ->
+  assoc (nq_coll nq) (a_db a) = Some sc ->
+  bulk_outcome nq u sc a t a'.
+Proof. exact spec_bulk_update_exact. Qed.
+Print Assumptions C03_spec_bulk_update_exact.
+
+Theorem C03_spec_delete_exact : forall a q t a' nq sc,
+  a_closed a = false -> wf_db (a_db a) -> a_step (ODelete q) a t a' ->
+  normalize_query (mk_query q) = Some nq -> nq_skip nq = 0 -> nq_limit nq < 0 ->
+  assoc (nq_coll nq) (a_db a) = Some sc ->
+  t = T_ok (TL []) /\
+  exists sc', assoc (nq_coll nq) (a_db a') = Some sc' /\ sc_idx sc' = sc_idx sc /\
+    sc_docs sc' = filter (fun e => negb (sat_opt (nq_crit nq) (snd e))) (sc_docs sc) /\
+    (forall id d, In (id, d) (sc_docs sc) ->
+       assoc id (sc_docs sc') = if sat_opt (nq_crit nq) d then None else Some d) /\
+    (forall c', c' <> nq_coll nq -> assoc c' (a_db a') = assoc c' (a_db a)) /\
+    map fst (a_db a') = map fst (a_db a).
+Proof. exact spec_delete_exact. Qed.
+Print Assumptions C03_spec_delete_exact.
+
+Theorem C03_spec_windowed_selection_not_determined :
+  exists a1 a2, a_step (ODelete (RProofs.ex_c, [QLimit 1])) ns_a (T_ok (TL [])) a1 /\
+                a_step (ODelete (RProofs.ex_c, [QLimit 1])) ns_a (T_ok (TL [])) a2 /\
+                assoc RProofs.ex_c (a_db a1) = Some (mkSC [(ex_id2, ex_d2)] []) /\
+                assoc RProofs.ex_c (a_db a2) = Some (mkSC [(ex_id1, ex_d1)] []) /\ a1 <> a2.
+Proof. exact spec_bulk_windowed_not_determined. Qed.
+Print Assumptions C03_spec_windowed_selection_not_determined.
